@@ -298,3 +298,12 @@ Proof.
   subst ok. intros src dst Hin. exfalso.
   apply (proj1 (all_runs_iff _ _) (failed_argument_was_not_moved_lemma p o) ta (Done false) H1 eq_refl src dst Hin).
 Qed.
+
+(* one argument, at most one move: after a move has returned normally the procedure issues nothing but log lines (the monitor accepts
+   no further operation in that state), so an argument is never moved twice, and nothing is cleaned up or created after its move *)
+Theorem one_move_per_argument_lemma path o :
+  all_runs (fun t _ => accepts mstep false t <> None) (trash_single path o).
+Proof.
+  generalize (wp_sound mstep _ _ _ _ (W_trash_single o path)). apply all_runs_mono.
+  intros t out [s' [Ha _]]. rewrite Ha. discriminate.
+Qed.
